@@ -91,7 +91,7 @@ func run(c *mc.Ctx) {
 		if root.Trigger == "voice" {
 			events = append(append([]string{}, world.Events...), "dial:answered", "dial:busy")
 		}
-		cfg := sm.Cfg{Depth: depth, Events: events, Regimes: []bool{false, true}, ChoiceBound: bound}
+		cfg := sm.Cfg{Ctx: c, Depth: depth, Events: events, Regimes: []bool{false, true}, ChoiceBound: bound}
 		cfg.Visit = func(t *sm.Trans) bool { return visit(c, t) }
 		st := sm.Search(root, cfg)
 		if st.MaxSprintSteps > TightLimit {
@@ -215,9 +215,15 @@ func init() {
 			"canonical key (UUIDs renamed by first occurrence, timestamps by rank) merges only states with equal futures",
 			"clock, UUID and random sources are owned by the harness",
 		},
-		Run:    run,
-		Replay: replayFn,
-		Budget: map[string]time.Duration{"quick": 8 * time.Minute, "thorough": 30 * time.Minute},
+		Run:         run,
+		Replay:      replayFn,
+		Single:      sm.Single,
+		Classify:    sm.SkipHangs,
+		HangLimit:   15 * time.Second,
+		SingleLimit: 30 * time.Second,
+		MaxBadCases: 2,
+		MemLimitKB:  8 << 20,
+		Budget:      map[string]time.Duration{"quick": 8 * time.Minute, "thorough": 30 * time.Minute},
 		Guards: func(r *mc.Result, tier string) []string {
 			var f []string
 			for _, fact := range []string{"three_runs", "child_expired", "run_failed", "flow_entered", "dial_wait", "dial_ended", "resume_limit_with_three_nested_runs"} {
